@@ -314,6 +314,13 @@ def pp(n, depth=0, maxlen=None):
     return s
 
 
+def _sp(d):
+    d = d or '?'
+    if d.startswith('std::option::Option::') or d.startswith('std::result::Result::'):
+        return d.split('::')[-1]
+    return short(d)
+
+
 def _pp_pat(p):
     k = p['k']
     if k == 'Wild':
@@ -326,11 +333,11 @@ def _pp_pat(p):
     if k == 'PLit':
         return ('-' if p.get('neg') else '') + json.dumps(p.get('v'))
     if k == 'PPath':
-        return short(p.get('def', p.get('name', '?')))
+        return _sp(p.get('def', p.get('name', '?')))
     if k == 'PTS':
-        return '%s(%s)' % (short(p.get('def', '?')), ', '.join(_pp_pat(s) for s in p['subs']))
+        return '%s(%s)' % (_sp(p.get('def', '?')), ', '.join(_pp_pat(s) for s in p['subs']))
     if k == 'PStruct':
-        return '%s{%s%s}' % (short(p.get('def', '?')), ', '.join('%s: %s' % (f['f'], _pp_pat(f['p'])) for f in p['fields']),
+        return '%s{%s%s}' % (_sp(p.get('def', '?')), ', '.join('%s: %s' % (f['f'], _pp_pat(f['p'])) for f in p['fields']),
                              ', ..' if p.get('rest') else '')
     if k == 'POr':
         return ' | '.join(_pp_pat(s) for s in p['alts'])
